@@ -545,7 +545,19 @@ class Interp:
                     names = []
                     if h.type is not None:
                         ts = h.type.elts if isinstance(h.type, ast.Tuple) else [h.type]
-                        names = [(dotted(t) or '').split('.')[-1] for t in ts]
+                        names = []
+                        for t in ts:
+                            # a name that is a module-level (or class-level) tuple of exception classes stands for its members
+                            val = None
+                            if isinstance(t, ast.Name) and not t.id[:1].isupper() or (isinstance(t, ast.Name) and t.id.isupper()):
+                                try:
+                                    val = self.ev(t, env)
+                                except AnalysisError:
+                                    val = None
+                            if isinstance(val, (tuple, list)) and val and all(isinstance(x, ClassRef) for x in val):
+                                names.extend(x.name.split('.')[-1] for x in val)
+                            else:
+                                names.append((dotted(t) or '').split('.')[-1])
                     bases = {exc.kind} | set(self.isa.get(exc.kind, ())) | EXC_BASES.get(exc.kind, {'Exception'})
                     if h.type is None or any(n in bases or n == 'BaseException' for n in names):
                         if h.name:
